@@ -24,6 +24,9 @@ Chk(name, got, want) ==
 ChkB(name, ok, info) ==
   IF ok THEN TRUE
   ELSE PrintT("MISMATCH|" \o ToString(tid) \o "|" \o ToString(l) \o "|" \o name \o "|" \o ToString(info)) /\ FALSE
+(* a diagnostic that never blocks: reported only if the trace ends up rejected at this event *)
+Note(name, cond, info) ==
+  IF cond THEN PrintT("MISMATCH|" \o ToString(tid) \o "|" \o ToString(l) \o "|" \o name \o "|" \o ToString(info)) ELSE TRUE
 Track  == TLCSet(tid, l)
 Post   == \A t \in 1..NTr :
             IF TLCGet(t) = Len(Traces[t].ev) + 1 THEN TRUE
